@@ -324,6 +324,8 @@ where
         }
         let record = Record::create(key, timestamp.into(), value, meta)
             .with_context(|| "storage write with record creation failed")?;
+        #[cfg(pearl_verif)]
+        crate::verif::buggify_yield("write.after_dup_check").await;
         let safe = self.inner.safe.read().await;
         let blob = safe
             .active_blob
@@ -376,6 +378,8 @@ where
                 Err(d) => d,
             };
             if dur.as_millis() > self.inner.config.debounce_interval_ms() as u128 {
+                #[cfg(pearl_verif)]
+                crate::verif::buggify_yield("write.before_update_msg").await;
                 self.observer.try_update_active_blob().await;
             }
         }
@@ -1023,6 +1027,8 @@ where
             }
         }
 
+        #[cfg(pearl_verif)]
+        crate::verif::buggify_yield("delete.between_locks").await;
         // Active blob should be initialized => use write lock
         let mut safe = self.inner.safe.write().await;
         if !only_if_presented {
@@ -1379,6 +1385,8 @@ where
                     break;
                 }
                 current_progress += 1;
+                #[cfg(pearl_verif)]
+                crate::verif::buggify_yield("dump.per_blob").await;
                 let _ = dump_sem.acquire().await;
                 if let Err(e) = blob.dump().await {
                     error!("Error dumping blob ({}): {}", blob.name(), e);
